@@ -126,6 +126,7 @@ Proof.
   destruct (sp =? 0) eqn:E0; [discriminate|]. apply Z.eqb_neq in E0.
   match type of H with (if ?c then _ else _) = _ => destruct c eqn:Ed; [discriminate|] end.
   apply Z.ltb_ge in Ed.
+  match type of H with (if ?c then _ else _) = _ => destruct c eqn:Etm; [discriminate|] end. clear Etm.
   assert (Hsp : 0 <= sp).
   { unfold sp, first_row, Gen.mkfs_table. change Gen.FAT_TYPE_FAT32 with 32. change Gen.FAT_TYPE_FAT16 with 16. change Gen.FAT_TYPE_FAT12 with 12.
     destruct (ft =? 32); [|destruct (ft =? 16); [|destruct (ft =? 12)]]; cbn [find fst snd];
@@ -184,6 +185,7 @@ Proof.
     set (ns := size / ss) in *. set (sp := first_row ns (Gen.mkfs_table 12) 0) in *. cbv zeta in H.
     destruct (sp =? 0) eqn:E0; [discriminate|]. apply Z.eqb_neq in E0.
     match type of H with (if ?c then _ else _) = _ => destruct c; [discriminate|] end.
+    match type of H with (if ?c then _ else _) = _ => destruct c; [discriminate|] end.
     change (12 =? 32) with false in H. cbv iota in H. cbn [orb] in H.
     destruct (first_row_in ns (Gen.mkfs_table 12) 0 sp eq_refl E0) as (sec & Hin & Hle).
     pose proof (proj1 (forallb_forall _ _) fat12_rows_ok (sec, sp) Hin) as Hrow. cbn [fst snd] in Hrow. apply Z.leb_le in Hrow.
@@ -192,4 +194,31 @@ Proof.
   destruct Hrows as [Hrow Hrds]. split; [exact Hrow|]. intros Hfs.
   change (12 =? 32) with false in Hr. cbv iota in Hr. subst rsvd.
   apply Z.div_lt_upper_bound; [exact Hspc|]. lia.
+Qed.
+
+(** the cluster count of every volume mkfs agrees to make lies in the range the specification assigns to the requested
+    type (FAT12 < 4085 <= FAT16 < 65525 <= FAT32) — for every size, sector size and number of FATs *)
+Definition type_of_count (n:Z) : Z := if n <? 4085 then 12 else if n <? 65525 then 16 else 32.
+Theorem mkfs_type_range ft size ss nf p num_sec spc rootent rsvd f16 f32 t16 t32 :
+  ft = 12 \/ ft = 16 \/ ft = 32 ->
+  Gen.mkfs_geometry pf_init ft size ss nf = Ok (p, num_sec, spc, rootent, rsvd, f16, f32, t16, t32) ->
+  type_of_count ((num_sec - (rsvd + root_dir_sectors p + nf * _fat_size p)) / spc) = ft.
+Proof.
+  intros Hft H. unfold Gen.mkfs_geometry in H.
+  change Gen.FAT_TYPE_FAT32 with 32 in H. change Gen.FAT_TYPE_FAT16 with 16 in H. change Gen.FAT_TYPE_FAT12 with 12 in H.
+  set (ns := size / ss) in *. set (sp := first_row ns (Gen.mkfs_table ft) 0) in *. cbv zeta in H.
+  destruct (sp =? 0) eqn:E0; [discriminate|].
+  match type of H with (if ?c then _ else _) = _ => destruct c eqn:Ed; [discriminate|] end.
+  match type of H with (if ?c then _ else _) = _ => destruct c eqn:Etm; [discriminate|] end.
+  assert (Hgoal : forall n, (if ft =? 12 then n >=? 4085 else if ft =? 16 then (n <? 4085) || (n >=? 65525) else n <? 65525) = false -> type_of_count n = ft).
+  { intros n Hn. unfold type_of_count. destruct Hft as [Hf|[Hf|Hf]]; subst ft.
+    - change (12 =? 12) with true in Hn. cbv iota in Hn. rewrite Z.geb_leb in Hn. apply Z.leb_gt in Hn.
+      destruct (n <? 4085) eqn:E; [reflexivity|apply Z.ltb_ge in E; lia].
+    - change (16 =? 12) with false in Hn. change (16 =? 16) with true in Hn. cbv iota in Hn. apply orb_false_iff in Hn. destruct Hn as [H1 H2].
+      rewrite Z.geb_leb in H2. apply Z.leb_gt in H2. rewrite H1. destruct (n <? 65525) eqn:E; [reflexivity|apply Z.ltb_ge in E; lia].
+    - change (32 =? 12) with false in Hn. change (32 =? 16) with false in Hn. cbv iota in Hn. apply Z.ltb_ge in Hn.
+      destruct (n <? 4085) eqn:E1; [apply Z.ltb_lt in E1; lia|]. destruct (n <? 65525) eqn:E2; [apply Z.ltb_lt in E2; lia|reflexivity]. }
+  destruct (ft =? 32) eqn:E32; cbn [orb] in H.
+  - injection H as <- <- <- <- <- <- <- <- <-. apply Hgoal. exact Etm.
+  - destruct (ns >=? 65536); injection H as <- <- <- <- <- <- <- <- <-; apply Hgoal; exact Etm.
 Qed.
